@@ -38,9 +38,28 @@ theorem c05_adopt_exactly {pre post : List Ev} {m g : Nat} {tps : List Nat}
     simp at hg
     obtain ⟨⟨_, rfl⟩, hc⟩ := hg
     refine ⟨G.members, a, k2, h4, (k4 a h2).1, ?_⟩
-    rcases hc with rfl | ⟨hsub, rfl⟩
+    rcases hc with ⟨rfl, _⟩ | ⟨hsub, rfl⟩
     · exact Or.inl h3.symm
     · exact Or.inr ⟨rfl, I.subch m hsub⟩
+  · simp at hg
+
+/-- **never under a superseded subscription**: a non-empty assignment is adopted only while the
+    member's subscription is still the one its registered JoinGroup advertised — the topics last
+    observed as its subscription (`subT`) are the topics of a `joinS` of that member; a subscription
+    that changed while the member waited for the SyncGroup answer makes it re-join instead -/
+theorem c05_adopt_under_current_subscription {pre post : List Ev} {m g : Nat} {tps : List Nat}
+    (h : accepts (pre ++ .asgS m g tps :: post) = true) :
+    tps = [] ∨ ∃ t, Since (· = .subT m t) (isSubT m) pre ∧ .joinS m t true ∈ pre := by
+  obtain ⟨s, _, I, hg, _⟩ := reach_of_accepts h
+  simp only [guard] at hg
+  split at hg
+  · rename_i g' tps' hs
+    simp at hg
+    obtain ⟨_, hc⟩ := hg
+    rcases hc with ⟨_, h0 | ⟨hj, ht⟩⟩ | ⟨_, rfl⟩
+    · exact Or.inl h0
+    · exact Or.inr ⟨_, I.subT m _ ht, I.joined m hj⟩
+    · exact Or.inl rfl
   · simp at hg
 
 /-- **`assignment()` = what was adopted**: a non-empty value of `assignment()` is the argument of
@@ -107,7 +126,7 @@ theorem c05_only_subscribed {pre post : List Ev} {m g : Nat} {tps : List Nat}
     by_cases hne : tps = []
     · subst hne
       exact ⟨G.members, t0, k2, ht0, k3 m t0 ht0, by simp⟩
-    · rcases hc with rfl | ⟨_, rfl⟩
+    · rcases hc with ⟨rfl, _⟩ | ⟨_, rfl⟩
       · -- some partition was handed out: use the topics the leader's check looked up
         obtain ⟨p0, hp0⟩ := List.exists_mem_of_ne_nil _ hne
         rw [← h3] at hp0
@@ -270,7 +289,7 @@ theorem c05_generation_unique {tr : List Ev} {g : Nat} {M1 M2 : List (Nat × Lis
 /-! ## non-vacuity: a two-member history with a rebalance is accepted -/
 
 def demo : List Ev :=
-  [ .revS 0, .revE 0, .joinS 0 [0] true, .genStart 1 [(0, [0])], .joinR 0 (some 1),
+  [ .subT 0 [0], .subT 1 [0], .revS 0, .revE 0, .joinS 0 [0] true, .genStart 1 [(0, [0])], .joinR 0 (some 1),
     .distribute 1 [(0, [0, 1])], .syncR 0 1 [0, 1], .asgS 0 1 [0, 1], .snap 0 [0, 1], .asgE 0,
     .fS 0 0 0, .fR 0 0 0 4, .deliver 0 0 0, .deliver 0 0 1,
     -- a second member arrives
@@ -283,12 +302,17 @@ def demo : List Ev :=
 example : accepts demo = true := by decide
 
 /-- … and the gate is not vacuous: delivering while the revoke callback runs is rejected -/
-example : accepts [ .revS 0, .revE 0, .joinS 0 [0] true, .genStart 1 [(0, [0])], .joinR 0 (some 1),
+example : accepts [ .subT 0 [0], .revS 0, .revE 0, .joinS 0 [0] true, .genStart 1 [(0, [0])], .joinR 0 (some 1),
     .distribute 1 [(0, [0])], .syncR 0 1 [0], .asgS 0 1 [0], .asgE 0, .fS 0 0 0, .fR 0 0 0 4,
     .revS 0, .deliver 0 0 0 ] = false := by decide
 
+/-- … adopting after the subscription changed behind the JoinGroup is rejected -/
+example : accepts [ .sub 0, .subT 0 [0], .revS 0, .revE 0, .joinS 0 [0] true, .genStart 1 [(0, [0])],
+    .joinR 0 (some 1), .distribute 1 [(0, [0])], .sub 0, .subT 0 [0, 1], .syncR 0 1 [0],
+    .asgS 0 1 [0] ] = false := by decide
+
 /-- … a member that left the group by itself and then hands out buffered records is rejected -/
-example : accepts [ .revS 0, .revE 0, .joinS 0 [0] true, .genStart 1 [(0, [0])], .joinR 0 (some 1),
+example : accepts [ .subT 0 [0], .revS 0, .revE 0, .joinS 0 [0] true, .genStart 1 [(0, [0])], .joinR 0 (some 1),
     .distribute 1 [(0, [0])], .syncR 0 1 [0], .asgS 0 1 [0], .asgE 0, .fS 0 0 0, .fR 0 0 0 4,
     .leaveR 0, .deliver 0 0 0 ] = false := by decide
 
@@ -301,7 +325,7 @@ example : accepts [ .revS 0, .revE 0, .joinS 0 [0] true, .revS 1, .revE 1, .join
     .genStart 1 [(0, [0]), (1, [0])], .distribute 1 [(0, [0, 1]), (1, [1])] ] = false := by decide
 
 /-- … data fetched before an adoption is not deliverable after it -/
-example : accepts [ .revS 0, .revE 0, .joinS 0 [0] true, .genStart 1 [(0, [0])], .joinR 0 (some 1),
+example : accepts [ .subT 0 [0], .revS 0, .revE 0, .joinS 0 [0] true, .genStart 1 [(0, [0])], .joinR 0 (some 1),
     .distribute 1 [(0, [0])], .syncR 0 1 [0], .asgS 0 1 [0], .asgE 0, .fS 0 0 0, .fR 0 0 0 4,
     .revS 0, .revE 0, .joinS 0 [0] true, .genStart 2 [(0, [0])], .joinR 0 (some 2),
     .distribute 2 [(0, [0])], .syncR 0 2 [0], .asgS 0 2 [0], .deliver 0 0 0 ] = false := by decide
